@@ -143,7 +143,8 @@ fn main() {
             let steps: usize = arg(&args, "--steps").map(|s| s.parse().unwrap()).unwrap_or(500);
             let classes: u16 = arg(&args, "--classes").map(|s| s.parse().unwrap()).unwrap_or(12);
             let caps: Vec<usize> = arg(&args, "--caps").unwrap_or("8,6,4").split(',').map(|x| x.parse().unwrap()).collect();
-            let info = trace::record(arg(&args, "--trace").expect("--trace"), set_mode, seed, runs, steps, &caps, classes);
+            let inject: f64 = arg(&args, "--inject").map(|s| s.parse().unwrap()).unwrap_or(0.0);
+            let info = trace::record(arg(&args, "--trace").expect("--trace"), set_mode, seed, runs, steps, &caps, classes, inject);
             let out = arg(&args, "--out").expect("--out");
             std::fs::write(out, serde_json::to_string_pretty(&info).unwrap()).expect("write report");
         }
